@@ -282,7 +282,7 @@ def run(ctx):
             hw_sel = hw; nrand_plain, nrand_exempt, stmt = 7, 3, 5
         else:
             hw_sel = hw if ctx.shard == 0 else [hw[i] for i in range(len(hw)) if i % ctx.nshards == ctx.shard % len(hw)]
-            nrand_plain, nrand_exempt, stmt = 22, 8, 10
+            nrand_plain, nrand_exempt, stmt = 14, 5, 8
         for i, sessions in enumerate(hw_sel):
             explore(ctx, model, sp, judge, sessions, 'hand', ('hand', hw.index(sessions), ctx.shard), stmt)
             ctx.count('program_sets')
